@@ -25,8 +25,10 @@ var (
 
 const Separator = realfp.Separator
 
+//go:norace
 func Abs(p string) (string, error) { return p, nil }
 
+//go:norace
 func WalkDir(root string, fn fs.WalkDirFunc) error {
 	r := strings.TrimSuffix(root, "/")
 	if err := fn(root, vos.MemEntry{N: Base(root), Dir: true}, nil); err != nil {
@@ -50,6 +52,7 @@ func WalkDir(root string, fn fs.WalkDirFunc) error {
 	return nil
 }
 
+//go:norace
 func Walk(root string, fn realfp.WalkFunc) error {
 	return WalkDir(root, func(path string, d fs.DirEntry, err error) error {
 		info, _ := d.Info()
@@ -57,6 +60,7 @@ func Walk(root string, fn realfp.WalkFunc) error {
 	})
 }
 
+//go:norace
 func Glob(pattern string) ([]string, error) {
 	var out []string
 	dir, _ := Split(pattern)
